@@ -151,6 +151,31 @@ func mustGetwd() string {
 	return wd
 }
 
+// RunFastReport is RunFast with the --report text captured.
+func (w *Workspace) RunFastReport(s *Spec, imp gotypes.Importer) (*Result, string) {
+	dir := w.dirFor()
+	writeSpec(dir, s)
+	fset := gotoken.NewFileSet()
+	var diag, rep bytes.Buffer
+	errs := errlogger.New(fset, &diag)
+	res := &Result{Fset: fset, Dir: dir, PkgPath: PkgPath}
+	func() {
+		defer func() {
+			if r := recover(); r != nil {
+				res.Panic = fmt.Sprintf("%v\n%s", r, debug.Stack())
+			}
+		}()
+		res.V = codegen.VerifGenerateFast(&codegen.Config{Fset: fset, Errs: errs, Dir: dir, Report: &rep}, PkgPath, imp)
+		res.OK = res.V.OK
+		res.Stage = res.V.Stage
+	}()
+	res.Diag = normDiag(diag.String(), dir)
+	res.Base = readIf(filepath.Join(dir, "base.gen.go"))
+	res.Lexer = readIf(filepath.Join(dir, "lexer.gen.go"))
+	res.Parser = readIf(filepath.Join(dir, "parser.gen.go"))
+	return res, rep.String()
+}
+
 // RunLexer runs the pipeline up to EmitLexer (no Go analysis).
 func (w *Workspace) RunLexer(s *Spec) (res *Result) {
 	dir := w.dirFor()
